@@ -900,7 +900,8 @@ class NF:
             # `a.chain(b)`: the elements of a, then those of b
             return ("list", tuple(_list_items(recv)) + tuple(_list_items(self.nf(args[0], env))))
         if name in ("map", "and_then", "is_some_and", "is_ok_and", "map_or", "map_or_else", "filter", "inspect", "find", "any",
-                    "position", "filter_map", "unwrap_or_else", "ok_or_else", "for_each"):
+                    "position", "filter_map", "unwrap_or_else", "ok_or_else", "for_each", "flat_map", "all", "find_map", "take_while",
+                    "skip_while"):
             if "Iterator" in (e.get("path") or "") or (recv[0] == "call" and str(recv[1]).endswith(("children", "split", "chars", "lines"))):
                 # iterator adapters keep the spine explicit
                 clo = args[-1] if args else None
